@@ -219,7 +219,13 @@ u64 apply_host_op(Box& b, FwConfig& fw, const Plan& plan, const Step& s, std::st
                 return 0;
             if (off >= 0x1C0 && off <= 0x1DE && t.MMIORead(0x1BE) >= 8)
                 return 0;
-            return t.MMIORead((u16)s.arg(0));
+            // only the modelled bits take part in the twins' comparison: the storage-only bits of a cell (e.g. bits 2..14 of a
+            // vector's high word) are outside the Reset clause of C17; the heap-poison mode compares all 0x800 offsets unmasked
+            u16 mask = 0xFFFF;
+            for (auto& f : mmio_fields())
+                if (f.off == off)
+                    mask = f.modelled_mask;
+            return (u64)(t.MMIORead((u16)s.arg(0)) & mask);
         }
         if (s.op == "send") {
             t.SendData((u8)(s.arg(0) % 3), (u16)s.arg(1));
